@@ -340,11 +340,12 @@ class Reader:
         """
         digital = self.read_sync_digital(_slice)
         analog = self.read_sync_analog(_slice)
+        if analog is not None:
+            analog = np.atleast_2d(analog)  # an integer sample selector yields a 1d row
         if analog is not None and floor_percentile and analog.size:
             analog -= np.percentile(analog, 10, axis=0)
         if analog is None:
             return digital
-        analog = np.atleast_2d(analog)  # an integer sample selector yields a 1d row
         analog[np.where(analog < threshold)] = 0
         analog[np.where(analog >= threshold)] = 1
         return np.concatenate((digital, np.int8(analog)), axis=1)
